@@ -92,6 +92,8 @@ def run(ctx, chk, tier="quick"):
         chk.indeterminate("C18.O1", where_of(f, f.node), "compute_recession_curve signature changed")
         return
     sy, tr, grid, mean, curv, et = p[:6]
+    from ..perm import sorted_values_regathered
+    sorted_values_regathered(ctx, chk, "C18.O2", ('simulate_recession', 'transmissivity'), "simulate_recession")
     facts, probs = simfacts.extract(ctx, f, grid, mean)
     simfacts.report(chk, "C18.O2", "C18.O2", f, facts, probs, "elapsed time", "quadrature of the integrand")
     flow = Flow.of(f)
